@@ -1232,6 +1232,12 @@ def run(ctx: Ctx):
     rep = drv.ask(dl)
     nd = 0
     for l, a, m, c in zip(dl, di, rep, dc):
+        if a != m and c.get("op") == "detcall" and m == "NotImplementedError" and a.startswith("ok "):
+            # a spelling of main_encoding / embedded_encoding OTHER than the accepted ones that the code now takes instead of refusing it:
+            # which further argument spellings detwingle() accepts is free (the property is about the default conversion; the accepted
+            # spellings are held to the one-argument result above) - free-behaviour round
+            ctx.count("free:detwingle-accepts-another-spelling")
+            continue
         if a != m:
             nd += 1
             ctx.corr_disagreements += 1
